@@ -995,7 +995,7 @@ def monitor_lin(line):
     for i in range(n):
         if not (0.0 <= al2[i] <= bound): return ("constraints", "QpBoxLinear: alpha(%d)=%r outside [0, %r]" % (i, al2[i], bound)), None
     for j in range(d):
-        want = math.fsum(al2[i] * ys[i] * xs[i * d + j] for i in range(n)); sc = math.fsum(abs(al2[i] * xs[i * d + j]) for i in range(n)) + 1e-300
+        want = math.fsum(al2[i] * ys[i] * xs[i * d + j] for i in range(n)); sc = math.fsum(abs(bound * xs[i * d + j]) for i in range(n)) + 1e-300   # w is maintained incrementally: the drift scales with the largest contributions that were ever added (alpha <= bound), not with the final alpha
         if not abs(w2[j] - want) <= 1e-12 * sc * n: return ("bookkeeping", "QpBoxLinear: w(%d)=%r but sum_i alpha_i y_i x_i = %r" % (j, w2[j], want)), None
     return None, None
 
